@@ -407,8 +407,8 @@ def confirm_by_cases(ctx, cmd, module, extra=None, cfg=None, extra_env=None, cfg
     return fn
 
 
-def replay_main(ctx, replay, cmd, module, cfg=None, extra_env=None):
+def replay_main(ctx, replay, cmd, module, cfg=None, extra_env=None, cfg_text=None):
     rep = json.load(open(replay))
-    if confirm_by_cases(ctx, cmd, module, cfg=cfg, extra_env=extra_env)(rep):
+    if confirm_by_cases(ctx, cmd, module, cfg=cfg, extra_env=extra_env, cfg_text=cfg_text)(rep):
         ctx.violations.append({"what": "replayed: still not explained by the specification: " + rep.get("what", ""),
                                "sig": rep.get("sig", {}), "replay": replay})
